@@ -6,6 +6,7 @@
 # based on multiprocessing/process.py  (17/02/2017)
 #
 import sys
+from multiprocessing import util
 from multiprocessing.context import assert_spawning
 from multiprocessing.process import BaseProcess
 
@@ -43,6 +44,16 @@ class LokyProcess(BaseProcess):
         else:
             from .popen_loky_posix import Popen
         return Popen(process_obj)
+
+    @staticmethod
+    def _after_fork():
+        # A LokyProcess runs in a freshly exec'ed interpreter, not in a forked
+        # copy of its parent: the finalizers registered before _bootstrap is
+        # called (e.g. by a lock created at module level while the main module
+        # is re-imported or the process object unpickled) belong to this
+        # process. Dropping them, as BaseProcess._after_fork does, would leave
+        # their named semaphores linked after the objects are collected.
+        util._run_after_forkers()
 
 
 class LokyInitMainProcess(LokyProcess):
